@@ -182,7 +182,7 @@ def families(tier):
 
 def signature(f):
     """Shape of a counter-example: ordered kinds of the history + the observable that differs."""
-    if f['code'].startswith('C03-known:'):
+    if f['code'] == 'C03-' + triage.KF_VALUE_EQUALITY:
         return f['code']
     muts, plc = f['case']
     kinds = []
